@@ -132,7 +132,7 @@ Definition item_pair_ok (lk : lookups) (x y : item) : bool :=
           && Bool.eqb (ideep x) (ideep y) && N.eqb (imodel x) (imodel y)
       | _, _ => true
       end) &&
-     implb (str_eqb (ity x) (ity y)) (opt_N_beq (hint_of lk x) (hint_of lk y)) &&
+     implb (str_eqb (ity x) (ity y)) (dict_exact (iprops x) (iprops y)) &&
      (match hint_of lk x, hint_of lk y with Some m, Some m' => N.eqb m m' | _, _ => true end)).
 Definition items_consistentb (lk : lookups) (D : list item) : bool := pairwise (item_pair_ok lk) D.
 
@@ -150,7 +150,7 @@ Proof.
   - intros x y I I' A E. specialize (P x y I I'). unfold item_pair_ok in P.
     rewrite A, N.eqb_refl in P. simpl in P.
     apply andb_true_iff in P as [P _]. apply andb_true_iff in P as [_ P].
-    rewrite E, str_eqb_refl in P. simpl in P. now apply opt_N_beq_eq.
+    rewrite E, str_eqb_refl in P. simpl in P. now apply (list_beq_sound pair_eqb pair_eqb_eq).
   - intros x y nm b nm' b' I I' A Hx Hy. specialize (P x y I I'). unfold item_pair_ok in P.
     rewrite A, N.eqb_refl, Hx, Hy in P. simpl in P.
     apply andb_true_iff in P as [P _]. apply andb_true_iff in P as [P _].
